@@ -24,6 +24,10 @@ import (
 	"time"
 
 	metaapp "github.com/openGemini/openGemini/app/ts-meta/meta"
+	"github.com/openGemini/openGemini/lib/metaclient"
+	"github.com/openGemini/openGemini/lib/util/lifted/hashicorp/serf/serf"
+	proto2 "github.com/openGemini/openGemini/lib/util/lifted/influx/meta/proto"
+	"github.com/openGemini/openGemini/lib/util/lifted/protobuf/proto"
 	"github.com/openGemini/openGemini/lib/config"
 	"github.com/openGemini/openGemini/lib/logger"
 	"github.com/openGemini/openGemini/lib/raftconn"
@@ -98,6 +102,7 @@ type H struct {
 	prof   string
 	viol   int
 	reported map[string]int
+	ltime    uint64
 	real     bool // real ts-store shards behind the nodes
 	tag      string // "" or "@1 ": which replica group of the run this is (two groups can share the nodes)
 	twin     *H     // the other replica group on the same nodes
@@ -153,12 +158,15 @@ func (h *H) boot() {
 	}
 	h.leader = -1
 	// ts-meta's record of the group, built by the real code
-	h.data = &meta2.Data{PtView: map[string]meta2.DBPtInfos{}, ReplicaGroups: map[string][]meta2.ReplicaGroup{}}
+	h.data = &meta2.Data{PtView: map[string]meta2.DBPtInfos{}, ReplicaGroups: map[string][]meta2.ReplicaGroup{},
+		Databases: map[string]*meta2.DatabaseInfo{dbName: {Name: dbName, ReplicaN: h.n}}, TakeOverEnabled: true}
 	for i := 0; i < h.n; i++ {
 		dn := meta2.DataNode{}
 		dn.ID = uint64(i + 1)
+		dn.Host = fmt.Sprintf("127.0.0.%d:8400", i+1)
+		dn.Status = serf.StatusAlive
 		h.data.DataNodes = append(h.data.DataNodes, dn)
-		h.data.PtView[dbName] = append(h.data.PtView[dbName], meta2.PtInfo{Owner: meta2.PtOwner{NodeID: uint64(i + 1)}, Status: meta2.Online, PtId: uint32(i)})
+		h.data.PtView[dbName] = append(h.data.PtView[dbName], meta2.PtInfo{Owner: meta2.PtOwner{NodeID: uint64(i + 1)}, Status: meta2.Offline, PtId: uint32(i)})
 	}
 	if perr := safe(func() {
 		if err := h.data.CreateDBReplication(dbName, uint32(h.n)); err != nil {
@@ -170,6 +178,14 @@ func (h *H) boot() {
 	}
 	if len(h.data.ReplicaGroups[dbName]) != 1 {
 		h.fail("expected one replica group, got %d", len(h.data.ReplicaGroups[dbName]))
+		return
+	}
+	// the partitions come online one by one (UpdatePtInfo): the group turns Health with the majority
+	for i := 0; i < h.n && h.err == nil; i++ {
+		h.ptOnline(i)
+	}
+	if h.rgp().Status != meta2.Health {
+		h.fail("replica group is not Health after all partitions came online (status %d)", h.rgp().Status)
 		return
 	}
 	h.emit("new")
@@ -551,7 +567,11 @@ func (h *H) digest() string {
 	if len(ack) > 0 {
 		ackS = strings.Join(ack, ",")
 	}
-	parts := []string{fmt.Sprintf("D clog=%d infl=%d lead=%s master=%d peers=%s alive=%s acked=%s", len(h.clog), len(h.infl), lead, rg.MasterPtID, natList(peers), natList(alive), ackS)}
+	health := 0
+	if rg.Status == meta2.Health {
+		health = 1
+	}
+	parts := []string{fmt.Sprintf("D clog=%d infl=%d lead=%s master=%d peers=%s alive=%s health=%d acked=%s", len(h.clog), len(h.infl), lead, rg.MasterPtID, natList(peers), natList(alive), health, ackS)}
 	for i := 0; i < h.n; i++ {
 		x := h.cl.nodes[i]
 		if !h.mir[i].up {
@@ -751,8 +771,11 @@ func (h *H) actLead(l int) {
 	h.after(fmt.Sprintf("lead %d", l))
 }
 
-func (h *H) actWrite(p, k, v, sh, pad int) {
+func (h *H) actWrite(p, k, v, sh, pad int) { h.writeAt(p, k, v, sh, pad, "propose") }
+
+func (h *H) writeAt(p, k, v, sh, pad int, op string) {
 	if !h.mir[p].up {
+		h.nextU--
 		return
 	}
 	tail := tailOf(sh, k, v, pad)
@@ -767,10 +790,14 @@ func (h *H) actWrite(p, k, v, sh, pad int) {
 	size := 4 + 1 + len(fmt.Sprintf("%s_%d", dbName, p)) + 8 + len(tail)
 	// the waiter is registered before the proposal is handed to raft
 	waitFor(2*time.Second, func() bool { return x.rn.VerifPending() > before || len(w.done) > 0 })
-	h.emit(fmt.Sprintf("propose %d %d %d %d %d", p, k, v, sh, size))
+	if op == "coordwrite" {
+		h.emit(fmt.Sprintf("coordwrite %d %d %d %d", k, v, sh, size))
+	} else {
+		h.emit(fmt.Sprintf("propose %d %d %d %d %d", p, k, v, sh, size))
+	}
 	h.infl = append(h.infl, infl{kind: "write", uid: v, prop: p})
 	h.c.Count("write")
-	h.after(fmt.Sprintf("write n%d %d.%d=%d pad=%d", p, sh, k, v, pad))
+	h.after(fmt.Sprintf("%s n%d %d.%d=%d pad=%d", map[string]string{"propose": "write", "coordwrite": "coord-write"}[op], p, sh, k, v, pad))
 }
 
 func (h *H) actFlushBegin(n, sh int) {
@@ -1083,22 +1110,75 @@ func (h *H) checkAvail(what, class string) {
 	}
 }
 
+// ptOnline: ts-meta learns that the partition of node n is loaded (Data.UpdatePtInfo -> updatePtStatus
+// -> ReplicaGroup.nextSubHealth)
+func (h *H) ptOnline(n int) {
+	pt := h.data.PtView[dbName][n]
+	info := &proto2.PtInfo{Owner: &proto2.PtOwner{NodeID: proto.Uint64(pt.Owner.NodeID)}, Status: proto.Uint32(uint32(pt.Status)),
+		PtId: proto.Uint32(pt.PtId), Ver: proto.Uint64(pt.Ver), RGID: proto.Uint32(pt.RGID)}
+	if perr := safe(func() {
+		if err := h.data.UpdatePtInfo(dbName, info, pt.Owner.NodeID, uint32(meta2.Online)); err != nil {
+			h.fail("UpdatePtInfo: %v", err)
+		}
+	}); perr != "" {
+		h.fail("UpdatePtInfo: %s", perr)
+	}
+}
+
+// actMeta: ts-meta's view of node n changes - through the real Data.UpdateNodeStatus (which marks the
+// node's partitions Offline and lets the replica group leave Health) and, for a node that is back,
+// Data.UpdatePtInfo(Online).
 func (h *H) actMeta(n int, up bool) {
 	h.cl.mu.Lock()
 	h.cl.alive[n] = up
 	h.cl.mu.Unlock()
-	st := meta2.Offline
+	h.ltime++
+	st := serf.StatusFailed
 	if up {
-		st = meta2.Online
+		st = serf.StatusAlive
 	}
-	h.data.PtView[dbName][n].Status = st
+	if perr := safe(func() {
+		if err := h.data.UpdateNodeStatus(uint64(n+1), int32(st), h.ltime, "8011"); err != nil {
+			h.fail("UpdateNodeStatus: %v", err)
+		}
+	}); perr != "" {
+		h.fail("UpdateNodeStatus: %s", perr)
+		return
+	}
 	if up {
+		h.ptOnline(n)
 		h.emit(fmt.Sprintf("metaup %d", n))
 	} else {
 		h.emit(fmt.Sprintf("metadown %d", n))
 	}
 	h.c.Count("meta-liveness")
 	h.after(fmt.Sprintf("meta n%d alive=%v", n, up))
+}
+
+// actCoordWrite: one request of a client - routed by the real Client.getAliveShardsForRepDB over the
+// meta image, sent to the store that owns the target partition (PointsWriter.writeRowToShard); a
+// store that is down gives the coordinator a retryable error: nothing happens.
+func (h *H) actCoordWrite(k, v, sh, pad int) {
+	sgi := &meta2.ShardGroupInfo{ID: uint64(sh)}
+	for i := 0; i < h.n; i++ {
+		sgi.Shards = append(sgi.Shards, meta2.ShardInfo{ID: uint64(sh*100 + i), Owners: []uint32{uint32(i)}})
+	}
+	var idx []int
+	if perr := safe(func() { idx = metaclient.VerifAliveShardsForRepDB(h.data, dbName, sgi, h.n) }); perr != "" {
+		h.fail("getAliveShardsForRepDB: %s", perr)
+		return
+	}
+	tail := tailOf(sh, k, v, pad)
+	size := 4 + 1 + len(fmt.Sprintf("%s_%d", dbName, 0)) + 8 + len(tail)
+	h.c.Count("coord-write")
+	if len(idx) == 0 || !h.mir[int(sgi.Shards[idx[0]].Owners[0])].up {
+		h.emit(fmt.Sprintf("coordwrite %d %d %d %d", k, v, sh, size))
+		h.c.Count("coord-write-retry")
+		h.nextU-- // no writer came into being: the model numbers writers by proposals
+		h.log = append(h.log, fmt.Sprintf("coord-write %d.%d=%d: target store not reachable", sh, k, v))
+		return
+	}
+	h.writeAt(int(sgi.Shards[idx[0]].Owners[0]), k, v, sh, pad, "coordwrite")
 }
 
 func (h *H) actElect() {
@@ -1150,6 +1230,7 @@ func Run(c *hx.Ctx) error {
 	logger.SetLogger(zap.NewNop())
 	meta2.DataLogger = zap.NewNop()
 	raft.SetLogger(&raft.DefaultLogger{Logger: log.New(io.Discard, "", 0)})
+	_ = config.SetHaPolicy(config.RepPolicy)
 	config.SetElectionTick(4)
 	config.SetHeartbeatTick(1)
 	config.SetShardMemTableSizeLimit(1 << 30) // no size-triggered flush behind the harness's back
